@@ -322,7 +322,8 @@ def explore(sysm, *, state_cap=200000, depth_cap=None, keep_states=False, max_vi
                 if len(res.violations) < max_viol:
                     res.violations.append(v)
     # samples
-    for i in _spread(len(snaps), min(4, len(snaps))):
+    picks = _spread(len(snaps), min(5, len(snaps)))
+    for i in (picks[1:] if len(picks) > 1 else picks):  # skip the initial state: a sample should show a real history
         res.samples.append(dict(history=jsonable(_hist(parents, i)), model=jsonable(models[i])))
     if keep_states:
         res.state_list = [(snaps[i], models[i], _hist(parents, i)) for i in range(len(snaps))]
